@@ -35,6 +35,10 @@ def run_property(pid, tier, model=None, quiet=False, write=True):
                 raise
             print(f"ANALYSIS-NOTE property={pid} analysis incomplete after the findings below: {e}")
             return finish(ctx, t0, seed, {"incomplete": str(e)})
+        if ctx.errors:
+            if not ctx.findings:
+                raise AnalysisError("; ".join(ctx.errors))
+            print(f"ANALYSIS-NOTE property={pid} some rules could not finish: {'; '.join(ctx.errors)[:400]}")
         extra = None
         if tier == "thorough":
             from . import mutate
